@@ -13,6 +13,7 @@ import traceback
 
 from . import core
 from .simfs import SimFS, SimOS, ShimGap
+from .realfs import RealFS, cleanup_base
 
 asm = None
 intelhex = None
@@ -50,23 +51,120 @@ def init():
         for name in sorted(os.listdir(DEFINITIONS_DIR)):
             with open(os.path.join(DEFINITIONS_DIR, name), 'rb') as f:
                 DEFINITIONS[name] = f.read()
+    from . import realfs
+    realfs.base_dir()      # scratch directory owned by this (parent) process; forked children inherit it
+    choose_backend()
 
 
 def add_definitions(fs):
+    if getattr(fs, 'is_real', False):
+        return          # the real definitions directory is already there
     for name, data in DEFINITIONS.items():
         fs.put(DEFINITIONS_DIR + '/' + name, data)
 
 
+BACKEND = 'sim'           # 'sim' (SimFS shim) or 'real' (private temp dir; automatic fallback, see choose_backend)
+BACKEND_REASON = ''
+_saved_cwd = []
+
+
+class NeedRealBackend(Exception):
+    """The code under test reached for a file-system call the SimFS shim does not model."""
+
+
+def make_fs(files=None, dirs=None, cwd='/', log=None, faults=None):
+    if BACKEND == 'real':
+        return RealFS(files, dirs, cwd=cwd, log=log, faults=faults)
+    return SimFS(files, dirs, cwd=cwd, log=log, faults=faults)
+
+
 def install(fs):
+    if getattr(fs, 'is_real', False):
+        _saved_cwd.append(os.getcwd())
+        os.chdir(fs.root + fs.cwd)
+        return
     asm.os = SimOS(fs)
     asm.open = fs.open
     intelhex.open = fs.open
 
 
 def uninstall():
+    if _saved_cwd:
+        os.chdir(_saved_cwd.pop())
     asm.os = os
     asm.__dict__.pop('open', None)
     intelhex.__dict__.pop('open', None)
+
+
+def retry_real(fn, *args, **kw):
+    """Run fn; if the SimFS shim turns out not to model what the code under test calls, switch this process to the
+    real backend and run it again from scratch."""
+    global BACKEND, BACKEND_REASON
+    try:
+        return fn(*args, **kw)
+    except NeedRealBackend as e:
+        BACKEND = 'real'
+        BACKEND_REASON = 'degraded: %s' % e
+        return fn(*args, **kw)
+
+
+def with_fallback(fn):
+    def wrapper(scen, keep_events=False):
+        res = retry_real(fn, scen, keep_events)
+        res.hit('backend:' + BACKEND)
+        return res
+    wrapper.__name__ = fn.__name__
+    return wrapper
+
+
+def _tr_arg(fs, a):
+    if not getattr(fs, 'is_real', False) or not isinstance(a, str):
+        return a
+    if '=' in a and a.startswith('--'):
+        k, v = a.split('=', 1)
+        return k + '=' + fs.real(v)
+    return fs.real(a)
+
+
+def _strip(fs, text):
+    return fs.strip(text) if getattr(fs, 'is_real', False) else text
+
+
+CANARY_FILES = {'/w/c/main.asm': b'include inc.asm\nstart:\n    addi t0, t0, K\ninclude_bytes b.bin\nalign 4\n', '/w/c/inc.asm': b'K = 5\n', '/w/c/b.bin': b'\x01\x02'}
+
+
+def _canary(fs):
+    x = run_cli(fs, ['-o', '/w/c/o.bin', '-l', '/w/c/l.txt', '--hex-offset', '0x100', '/w/c/main.asm'], core.EventLog(0))
+    out = fs.files.get('/w/c/o.bin')
+    return x['outcome'] == 'ok' and out is not None and len(out) == 8 and out[4:6] == b'\x01\x02' and fs.files.get('/w/c/o.bin.hex') is not None
+
+
+def choose_backend():
+    """Probe: does the code under test see the SimFS shim?  A refactor that reaches the file system another way
+    (pathlib, io.open, ...) would find nothing under the virtual root and every run would fail for the wrong reason.
+    If the canary fails on SimFS but works on a real temp tree, the whole batch runs on the real backend."""
+    global BACKEND, BACKEND_REASON
+    if os.environ.get('VERIF_BACKEND') in ('sim', 'real'):
+        BACKEND = os.environ['VERIF_BACKEND']
+        BACKEND_REASON = 'forced by VERIF_BACKEND'
+        return BACKEND
+    try:
+        ok_sim = _canary(SimFS(CANARY_FILES, ['/w/c'], cwd='/w/c'))
+    except NeedRealBackend:
+        ok_sim = False
+    except Exception:
+        ok_sim = False
+    if ok_sim:
+        BACKEND = 'sim'
+        return BACKEND
+    try:
+        ok_real = _canary(RealFS(CANARY_FILES, ['/w/c'], cwd='/w/c'))
+    except Exception:
+        ok_real = False
+    if ok_real:
+        BACKEND = 'real'
+        BACKEND_REASON = 'degraded: canary program fails on the SimFS shim but assembles on the real file system (the code bypasses asm.os/asm.open)'
+    return BACKEND
 
 
 def reset_logging():
@@ -187,7 +285,7 @@ def run_cli(fs, argv, log, inject=None):
         st.target = inject['n']
     out, err = io.StringIO(), io.StringIO()
     saved_argv = sys.argv
-    sys.argv = ['bronzebeard'] + list(argv)
+    sys.argv = ['bronzebeard'] + [_tr_arg(fs, a) for a in argv]
     fs.log = log
     install(fs)
     res = {'outcome': 'ok', 'code': 0, 'msg': '', 'exc': None, 'pass': None, 'inner': None, 'shim_gap': None}
@@ -221,8 +319,13 @@ def run_cli(fs, argv, log, inject=None):
         uninstall()
         sys.argv = saved_argv
         reset_logging()
-    res['stdout'] = out.getvalue()
-    res['stderr'] = err.getvalue()
+    if res.get('shim_gap'):
+        raise NeedRealBackend(res['shim_gap'])
+    res['msg'] = _strip(fs, res['msg'])
+    if res.get('err_file'):
+        res['err_file'] = _strip(fs, res['err_file'])
+    res['stdout'] = _strip(fs, out.getvalue())
+    res['stderr'] = _strip(fs, err.getvalue())
     res['lines_executed'] = st.count
     res['assemble_returned_seq'] = st.assemble_returned_seq
     res['assemble_entered_seq'] = st.assemble_entered_seq
@@ -243,6 +346,12 @@ def run_api(fs, call, log, inject=None):
     kw = {'compress': bool(call.get('compress'))}
     if call.get('include_dirs') is not None:
         kw['include_dirs'] = call['include_dirs']
+        if getattr(fs, 'is_real', False):
+            # same list object semantics are kept for SimFS; on the real backend a translated copy is passed
+            kw['include_dirs'] = [fs.real(d) for d in call['include_dirs']]
+    target = call['target']
+    if getattr(fs, 'is_real', False) and '\n' not in target:
+        target = fs.real(target)
     c_obj = dict(constants) if constants is not None else None
     l_obj = dict(labels) if labels is not None else None
     if call.get('pass_dicts', True):
@@ -255,7 +364,7 @@ def run_api(fs, call, log, inject=None):
     try:
         with contextlib.redirect_stdout(buf), contextlib.redirect_stderr(buf), instrumented(log, inject, st):
             try:
-                b = asm.assemble(call['target'], **kw)
+                b = asm.assemble(target, **kw)
                 out = {'ok': True, 'bytes': bytes(b).hex(), 'labels': dict(l_obj) if l_obj is not None else None,
                        'constants': dict(c_obj) if c_obj is not None else None}
             except asm.AssemblerError as e:
@@ -273,6 +382,11 @@ def run_api(fs, call, log, inject=None):
     finally:
         uninstall()
         reset_logging()
+    if out.get('shim_gap'):
+        raise NeedRealBackend(out['shim_gap'])
+    for k in ('msg', 'file', 'text'):
+        if out.get(k):
+            out[k] = _strip(fs, out[k])
     out['lines_executed'] = st.count
     out['inject_fired'] = st.inject_fired
     out['objs'] = (c_obj, l_obj)
